@@ -381,7 +381,100 @@ def rule_tri(repo, tier):
                     if not ok:
                         res.add(Finding('C10.TRI', f, '`%s` reads the factor `%s` as upper=%s, but it was computed with upper=%s: whenever the two differ the '
                                         'returned vector solves a different system' % (src(c)[:70], a.id, sflag, '/'.join(sorted(flags))), node=c))
+    _two_stage(repo, res)
     return res
+
+
+def _two_stage(repo, res):
+    """A = G G^T with G = F for a lower factor (upper=False) and G = F^T for an upper one.  A Cholesky solve written as two triangular solves runs
+    G y = b first and G^T x = y second, FOR BOTH values of the flag: the matrices of the two stages and their `upper` arguments are evaluated for
+    upper = False and upper = True.  F then F^T with (upper, not upper) is right for the lower factor only - for upper=True it solves (U U^T) x = b."""
+    for f in repo.module(SOLVER).functions.values():
+        tris = [c for c in _walk_own(f.node) if isinstance(c, ast.Call) and (dotted(c.func) or '').split('.')[-1] == 'solve_triangular' and len(c.args) >= 2]
+        if len(tris) < 2:
+            continue
+        prod = {}
+        for st in _walk_own(f.node):
+            if isinstance(st, ast.Assign) and isinstance(st.value, ast.Call):
+                for t in st.targets:
+                    names = [t] if isinstance(t, ast.Name) else list(t.elts) if isinstance(t, ast.Tuple) else []
+                    for k, nm in enumerate(names):
+                        if isinstance(nm, ast.Name) and (k == 0 or not isinstance(t, ast.Tuple)):
+                            prod.setdefault(nm.id, []).append(st.value)
+
+        def root(e):
+            while True:
+                if isinstance(e, ast.Attribute) and e.attr in ('mT', 'T', 'mH'):
+                    e = e.value
+                elif isinstance(e, ast.Call) and isinstance(e.func, ast.Attribute) and e.func.attr in ('transpose', 'conj', 'contiguous', 'clone'):
+                    e = e.func.value
+                elif isinstance(e, ast.IfExp):
+                    e = e.body
+                else:
+                    return e
+        by_factor = {}
+        for c in tris:
+            r = root(c.args[0])
+            if isinstance(r, ast.Name) and r.id in prod:
+                flags = {_factor_flag(repo, f, pc) for pc in prod[r.id]}
+                if len(flags) == 1 and None not in flags:
+                    by_factor.setdefault((r.id, flags.pop()), []).append(c)
+        for (fname, flag), cs in by_factor.items():
+            if len(cs) != 2:
+                continue
+            # order by data flow: the second stage consumes the result of the first
+            def result_names(c):
+                return {t.id for st in _walk_own(f.node) if isinstance(st, ast.Assign) and st.value is c for t in st.targets if isinstance(t, ast.Name)}
+            first, second = cs
+            if any(x is cs[1] for x in ast.walk(cs[0].args[1])) or (result_names(cs[1]) & {x.id for x in ast.walk(cs[0].args[1]) if isinstance(x, ast.Name)}):
+                first, second = cs[1], cs[0]
+
+            def evb(e, u):
+                if isinstance(e, ast.Constant) and isinstance(e.value, bool):
+                    return e.value
+                if src(e) == flag:
+                    return u
+                if isinstance(e, ast.UnaryOp) and isinstance(e.op, ast.Not):
+                    v = evb(e.operand, u)
+                    return None if v is None else not v
+                return None
+
+            def evm(e, u):
+                """is the matrix F (False) or F^T (True)"""
+                if isinstance(e, ast.Name):
+                    return False
+                if isinstance(e, ast.Attribute) and e.attr in ('mT', 'T', 'mH'):
+                    v = evm(e.value, u)
+                    return None if v is None else not v
+                if isinstance(e, ast.Call) and isinstance(e.func, ast.Attribute) and e.func.attr == 'transpose':
+                    v = evm(e.func.value, u)
+                    return None if v is None else not v
+                if isinstance(e, ast.Call) and isinstance(e.func, ast.Attribute) and e.func.attr in ('conj', 'contiguous', 'clone'):
+                    return evm(e.func.value, u)
+                if isinstance(e, ast.IfExp):
+                    t = evb(e.test, u)
+                    return None if t is None else evm(e.body if t else e.orelse, u)
+                return None
+            verdict = {}
+            for u in (False, True):
+                want1 = u                      # G = F (lower) / F^T (upper)
+                t1, t2 = evm(first.args[0], u), evm(second.args[0], u)
+                k1 = _kwarg(first, 'upper'); k2 = _kwarg(second, 'upper')
+                u1 = False if k1 is None else evb(k1, u)
+                u2 = False if k2 is None else evb(k2, u)
+                if None in (t1, t2, u1, u2):
+                    verdict[u] = None
+                    continue
+                # F is upper-triangular iff u; its transpose the opposite: the declared triangle must be the real one
+                tri_ok = (u1 == (u != t1)) and (u2 == (u != t2))
+                verdict[u] = (t1 == want1) and (t2 == (not want1)) and tri_ok
+            res.inst({'function': f.fq, 'two-stage solve with factor': fname, 'flag': flag, 'G y = b then G^T x = y for upper=False': verdict[False],
+                      'for upper=True': verdict[True]}, (f.fq, 'two-stage', fname))
+            for u in (False, True):
+                if verdict[u] is False:
+                    res.add(Finding('C10.TRI', f, 'the two triangular solves `%s` / `%s` are not G y = b followed by G^T x = y when %s = %s (A = G G^T, G the lower-'
+                                    'triangular form of the factor): the returned vector solves another system - silently' % (src(first)[:50], src(second)[:50], flag, u),
+                                    node=first, construct='two-stage triangular solve|%s' % u))
 
 
 @guarded
@@ -685,13 +778,44 @@ def rule_conf(repo, tier):
     return res
 
 
+@guarded
+def rule_normax(repo, tier):
+    """CG documents three layouts of one system: b of shape (n), (n, 1) and - "non-batched or batch size 1" - (1, n, 1) with A (1, n, n).  The vector axis is
+    the same one in all of them only when it is counted from the back (-2 after the column normalisation).  A reduction along `dim=0` is the vector axis
+    for the 2-D layout and the BATCH axis for the 3-D one: the norms become element-wise, the stopping test |r| < tol |b| can never pass when b has a zero
+    entry and the iteration ends in 0/0."""
+    res = RuleResult('C10.NORMAX', 'CG.forward: every reduction of b / the residual (norm, vecdot, sum) runs along an axis counted from the back (the vector axis -2), '
+                     'never along a non-negative literal axis', floor=2)
+    f = repo.func(SOLVER, 'CG.forward')
+    n = 0
+    for c in paths.calls_in(f.node):
+        nm = (dotted(c.func) or (c.func.attr if isinstance(c.func, ast.Attribute) else '')).split('.')[-1]
+        if nm not in ('norm', 'vector_norm', 'vecdot', 'sum', 'amax', 'max', 'mean', 'dot'):
+            continue
+        kw = {k.arg: k.value for k in c.keywords}
+        ax = kw.get('dim', kw.get('axis'))
+        if ax is None:
+            continue
+        n += 1
+        val = ax.value if isinstance(ax, ast.Constant) else (-ax.operand.value if isinstance(ax, ast.UnaryOp) and isinstance(ax.op, ast.USub) and isinstance(ax.operand, ast.Constant) else None)
+        ok = isinstance(val, int) and val < 0
+        res.inst({'function': f.fq, 'reduction': src(c)[:60], 'axis': src(ax), 'counted from the back': ok}, (f.fq, src(c)[:60]))
+        if isinstance(val, int) and val >= 0:
+            res.add(Finding('C10.NORMAX', f, '`%s` reduces along axis %d counted from the FRONT: for the documented batch-size-1 layout (A (1, n, n), b (1, n, 1)) that is the '
+                            'batch axis, the norm is taken element by element, `|r| < tol |b|` cannot hold where b is zero and the solver returns NaN (0/0 in alpha); the '
+                            'vector axis is -2 in every layout' % (src(c)[:60], val), node=c, construct='front axis in a CG reduction|' + nm))
+    if n < 2:
+        raise AnalysisError('C10.NORMAX: the norms of CG.forward were not found')
+    return res
+
+
 def _rules_core(repo, tier):
     from ..stale import rule_stale
     from .sparse_c10 import rule_idx, rule_dispatch
     from ..effects import rule_pure
     from ..outalias import rule_outalias
     return [rule_status(repo, tier), rule_lstsq(repo, tier), rule_zero(repo, tier), rule_stale(repo, 'C10.STALE', [(SOLVER, 'CG.forward')]),
-            rule_idx(repo, tier), rule_dispatch(repo, tier), rule_tri(repo, tier), rule_conf(repo, tier), guarded(rule_guess)(repo, tier), guarded(rule_budget)(repo, tier), rule_cgrec(repo, tier),
+            rule_idx(repo, tier), rule_dispatch(repo, tier), rule_tri(repo, tier), rule_normax(repo, tier), rule_conf(repo, tier), guarded(rule_guess)(repo, tier), guarded(rule_budget)(repo, tier), rule_cgrec(repo, tier),
             rule_outalias(repo, 'C10.OUT', [(SOLVER, 'CG.forward')]),
             rule_pure(repo, 'C10.PURE', 'no solver writes into the matrix, right-hand side, initial guess or preconditioner it is given: a caller that '
                       'solves again with the same tensors (damping retries, warm starts) solves the same system',
